@@ -210,7 +210,7 @@ func cmdVerify(args []string) int {
 			}
 		}
 	}
-	dischargeAll(all, dir, timeout, 10)
+	dischargeAll(all, dir, timeout, 14)
 	solveT := time.Since(t0) - loadT - genT
 
 	violations := 0
